@@ -27,6 +27,8 @@ RULES_DOC["R13"] = "= C12.R4: revive clears every pending request before the uni
 RULES_DOC["R14"] = "RANDWS scheduler: the pool it steals from ranges over every pool but its own -- the index is `random % A + B` with B = 1 and A + B = num_pools (or the constant 1 when there are two pools), so no pool of the scheduler is left unpolled"
 RULES_DOC["R15"] = "= C07.R7: the batch push hands every non-NULL handle to the pool exactly once (compaction with one counter)"
 RULES_DOC["X4"] = common.X4_DOC
+RULES_DOC["R16"] = "work-unit constructors initialise every ABTI_thread field that a revive re-initialises (state, request, function, argument, parent, last stream): descriptors are recycled by the memory pool, so a constructor that leaves `request` alone lets a new unit inherit a stale cancel or migration request"
+RULES_DOC["R17"] = "= C06.R1/R3/R4: a unit that blocks is counted on the pool it belongs to after request handling (a blocked unit whose pool looks idle is lost when the only stream of that pool is joined)"
 RULES_DOC.update({
     "R1": "create/revive push the unit exactly once iff pool_op == PUSH, never on error paths",
     "R2": "no store to the new descriptor after it was pushed",
@@ -554,6 +556,33 @@ def _alternatives(F, i, depth=3):
     return [i]
 
 
+def _thread_fields_written(F):
+    out = set()
+    for _b, i, lh, rh in F.stores():
+        fo = F.field_of(lh)
+        if fo and fo[0] == "ABTI_thread":
+            out.add(fo[1])
+    for _b, i in F.calls():
+        nd = F.nodes[i]
+        if (nd.get("fn") or "").startswith("ABTD_atomic_") and "store" in nd["fn"] and nd["a"]:
+            fo = F.field_of(nd["a"][0])
+            if fo and fo[0] == "ABTI_thread":
+                out.add(fo[1])
+    return out
+
+
+def rule_R16(P, rep):
+    T = "src/thread.c"
+    base = _thread_fields_written(P.flat(P.fn("thread_revive", T)))
+    rep.need(len(base) >= 4 and {"state", "request"} <= base, "thread_revive re-initialises only %s" % sorted(base))
+    for fn, file in (("ythread_create", T), ("task_create", "src/task.c")):
+        F = P.flat(P.fn(fn, file))
+        got = _thread_fields_written(F)
+        rep.ob("R16", "%s initialises every descriptor field a revive re-initialises" % fn, base <= got,
+               "not initialised: %s (the descriptor may be a recycled one)" % sorted(base - got), loc="%s:%d" % (F.file, F.line),
+               site="%s/init-fields" % fn)
+
+
 def run(P, rep, tier):
     common.rule_X4(P, rep)
     common.run_shared(P, rep, which=("X1",))
@@ -571,3 +600,5 @@ def run(P, rep, tier):
     common.borrow(rep, P, C12.rule_R4, "R13")
     rule_R14(P, rep)
     common.borrow(rep, P, C07.rule_R7, "R15")
+    rule_R16(P, rep)
+    common.borrow(rep, P, C06.rule_R1_R3_R4, "R17")
